@@ -11,6 +11,7 @@ package main
 // a binary built with -race (data-race reports are violations).
 
 import (
+	"github.com/marekgalovic/anndb/index/space"
 	"context"
 	"fmt"
 	"sort"
@@ -296,6 +297,67 @@ func runConc(c *Ctx) {
 	}
 	if c.Args["mode"] == "readers" {
 		return
+	}
+	// ---- a search that has read the entry point, and an insert likewise, go on from that vertex while the
+	// single writer removes it completely (tombstone, unlinking, hand-over). The removed vertex is still
+	// the way into the graph for whoever stands on it: the search must answer with live items (the index
+	// holds dozens), not with nothing.
+	for variant := 0; variant < 2; variant++ {
+		c.Begin(fmt.Sprintf("a search standing on the entry point while it is removed (variant %d)", variant))
+		inner, _ := newSpace(0)
+		ps := &parkSpace{inner: inner, parked: make(chan struct{}, 1), release: make(chan struct{})}
+		g := hnswCfg{m: 4, ef: 16, efC: 32, heur: variant == 1, keep: true}
+		g.mMax, g.mMax0 = g.m, 2*g.m
+		h := index.NewHnsw(2, ps, g.options()...)
+		r := rng.Fork()
+		vecs := genVectors(r, 41, 2, false)
+		for id := 1; id <= 40; id++ {
+			lvl := 0
+			if id%9 == 0 {
+				lvl = 1
+			}
+			if id == 20 {
+				lvl = 2 // the entry point, alone on the top level
+			}
+			h.Insert(rid(id), vecs[id], nil, lvl)
+		}
+		type answer struct {
+			res index.SearchResult
+			err error
+		}
+		done := make(chan answer, 1)
+		atomic.StoreInt32(&ps.armed, 1)
+		go func() {
+			res, err := h.Search(context.Background(), vecs[0], 5)
+			done <- answer{res, err}
+		}()
+		parked := false
+		select {
+		case <-ps.parked:
+			parked = true
+		case <-time.After(5 * time.Second):
+		}
+		remErr := h.Remove(rid(20))
+		close(ps.release)
+		var a answer
+		select {
+		case a = <-done:
+		case <-time.After(20 * time.Second):
+			c.Violate("C13", "C13/deadlock", "a search that had read the entry point did not return within 20 s after the writer removed that vertex", c.History())
+		}
+		c.OpLocal("40 items, entry point id 20 (level 2); search parked after reading it: %v; Remove(20) -> %v; the search then returned %d items err=%v", parked, remErr, len(a.res), a.err)
+		if parked && remErr == nil && a.err == nil {
+			if len(a.res) == 0 {
+				c.Violate("C13", "C13/search-empty-during-remove", "a search that read the entry point just before the single writer removed that vertex returned nothing, on an index that held 39 other items throughout", c.History())
+			}
+			for _, x := range a.res {
+				if id := int(x.Id[0]) | int(x.Id[1])<<8; id == 20 || id < 1 || id > 40 {
+					c.Violate("C13", "C13/search-returns-removed-entry-point", fmt.Sprintf("the search returned id %d, whose removal was complete before the search went on", id), c.History())
+				}
+			}
+		}
+		c.Nontrivial("search-parked-on-entry")
+		c.End()
 	}
 	// ---- deterministic witness of D23: a search that starts between the tombstone and the entry hand-over
 	{
@@ -672,4 +734,21 @@ func runConc(c *Ctx) {
 		}
 		c.End()
 	}
+}
+
+// parkSpace wraps a metric: the first Distance call after `armed` is set waits until `release` is closed
+// (the harness's way of holding one operation at the point where it has just read the entry point).
+type parkSpace struct {
+	inner   space.Space
+	armed   int32
+	parked  chan struct{}
+	release chan struct{}
+}
+
+func (p *parkSpace) Distance(a, b amath.Vector) float32 {
+	if atomic.CompareAndSwapInt32(&p.armed, 1, 0) {
+		p.parked <- struct{}{}
+		<-p.release
+	}
+	return p.inner.Distance(a, b)
 }
